@@ -7,7 +7,11 @@ mod common;
 mod ref_tables;
 
 mod c04;
+mod c11;
 mod c14;
+mod c17;
+mod c19;
+mod c20;
 
 #[cfg(feature = "calloc")]
 #[global_allocator]
@@ -23,7 +27,12 @@ fn main() {
         .unwrap();
     let code = match args.check.as_str() {
         "c04" => c04::run(&args),
+        "c11" => c11::run(&args),
         "c14" => c14::run(&args),
+        "c17" => c17::run(&args),
+        "c19" => c19::run(&args),
+        "c20" => c20::run(&args),
+        "c20case" => c20::run_case_child(&args),
         other => {
             eprintln!("unknown check {other}");
             2
